@@ -324,3 +324,35 @@ package server
 //@ ensures err == nil ==> res != nil && lc.term == req.Term && lc.status == 1 && lc.quorumAckTracker == nil && lc.followers == nil
 //@ ensures lc.term != old(lc.term) ==> lc.term == req.Term && ghost(dbTerm, lc.db) == req.Term
 //@ modifies *
+
+// ---------------------------------------------------------------- leader: attaching a follower (C03, C08)
+
+// Truncate RPCs to followers, counted in a ghost counter per provider; the head the
+// follower reports after truncating is remembered in a ghost value.
+//@ func ReplicationRpcProvider.Truncate(recv, follower, req) (res, err)
+//@ trusted
+//@ modifies ghost(truncates, recv), ghost(lastTruncHead, recv)
+//@ ensures ghost(truncates, recv) == old(ghost(truncates, recv)) + 1
+//@ ensures err == nil ==> res != nil && fresh(res) && ghost(lastTruncHead, recv) == res.HeadEntryId && (res.HeadEntryId == nil || fresh(res.HeadEntryId))
+
+//@ func getHighestEntryOfTerm(w, term) (id, err)
+//@ trusted
+//@ modifies nothing
+//@ ensures err == nil ==> id != nil
+//@ note trusted: walks the log backwards through a reverse reader (proved in C09) to the last entry of a term <= the given one
+
+// truncateFollowerIfNeeded: the head the follower claimed is taken over as the starting
+// point of replication only when the follower was NOT truncated (its head is known to
+// be part of the leader's log); when a truncation was requested, the head returned is
+// the one the follower reported after truncating. A follower on a newer term than the
+// leader's head entry is refused.
+//
+//@ func leaderController.truncateFollowerIfNeeded(lc, follower, followerHeadEntryId) (res, err)
+//@ property C03 C08
+//@ requires followerHeadEntryId != nil && lc.leaderElectionHeadEntryId != nil && lc.rpcClient != nil && lc.wal != nil && lc.log != nil
+//@ ensures err == nil && res == followerHeadEntryId ==> ghost(truncates, lc.rpcClient) == old(ghost(truncates, lc.rpcClient))
+//@ ensures err == nil && ghost(truncates, lc.rpcClient) != old(ghost(truncates, lc.rpcClient)) ==> res == ghost(lastTruncHead, lc.rpcClient)
+//@ ensures err == nil && ghost(truncates, lc.rpcClient) == old(ghost(truncates, lc.rpcClient)) ==> res == followerHeadEntryId && followerHeadEntryId.Term <= lc.leaderElectionHeadEntryId.Term
+//@ ensures followerHeadEntryId.Term > lc.leaderElectionHeadEntryId.Term ==> err != nil && ghost(truncates, lc.rpcClient) == old(ghost(truncates, lc.rpcClient))
+//@ ensures followerHeadEntryId.Term == lc.leaderElectionHeadEntryId.Term && followerHeadEntryId.Offset <= lc.leaderElectionHeadEntryId.Offset ==> err == nil && res == followerHeadEntryId && ghost(truncates, lc.rpcClient) == old(ghost(truncates, lc.rpcClient))
+//@ modifies ghost(truncates, lc.rpcClient), ghost(lastTruncHead, lc.rpcClient)
